@@ -164,6 +164,37 @@ func checkC27(c *Check) {
 	// universal == specific on corpus documents; encoders write version 0.  One universal
 	// decoder object serves all documents, CBE and CTE interleaved.
 	shared := ce.NewCEDecoder(cfg)
+	// versions 0 and 1 alike: the same document with a 1 in its header gives the same events behind the rules
+	for _, d := range ioDocs(c, map[string]int{"quick": 20, "thorough": 100}[c.Tier]) {
+		v1 := append([]byte{}, d.Doc...)
+		if d.Format == "cbe" && len(v1) > 1 && v1[1] == 0 {
+			v1[1] = 1
+		} else if d.Format == "cte" && len(v1) > 1 && v1[1] == '0' {
+			v1[1] = '1'
+		} else {
+			continue
+		}
+		events := func(doc []byte) ioResult {
+			return runIO(func() (interface{}, error) {
+				rec := &Recorder{}
+				err := ce.NewCEDecoder(cfg).DecodeDocument(doc, ce.NewRules(rec, cfg))
+				vs := ""
+				for _, e := range rec.Evs {
+					if e.M == "OnVersion" {
+						vs = fmt.Sprint(" version=", e.V)
+					}
+				}
+				return evsString(rec.Evs) + vs, err
+			})
+		}
+		r0, r1 := events(d.Doc), events(v1)
+		c.Count("v1"+hex.EncodeToString(d.Doc), true)
+		c.AddTraces(1)
+		if r0.String() != r1.String() {
+			c.Violation(fmt.Sprintf("%s document %x with version 1 in its header gives {%s}; with version 0 {%s}", d.Format, v1, r1, r0),
+				map[string]interface{}{"kind": "version-alike", "format": d.Format, "doc_v1": hex.EncodeToString(v1), "v0": r0.String(), "v1": r1.String()})
+		}
+	}
 	for _, d := range ioDocs(c, map[string]int{"quick": 40, "thorough": 300}[c.Tier]) {
 		var spec, uni ioResult
 		if d.Format == "cbe" {
